@@ -589,6 +589,16 @@ func c20Options(p *Prog, r *Report) {
 				}
 			}
 			r.Check(len(stop) == 1 && dec, R, nm+"/count", f.Pos(), "stops at 0, decrements otherwise, -1 never stops", nm+" does not honour the requested count (stop at 0 / decrement / -1 unbounded)")
+			// ... and nothing else ends the loop with success: every `return nil` is the one
+			// under counter == 0 (a round in which no answer came — survey over, timeout — is not
+			// the end of the run)
+			early := ""
+			for _, e := range f.Ev("return", "") {
+				if cnt != "" && e.Args[0] == "nil" && !hasAtom(e.Guard, cnt+" == 0") {
+					early = p.InstrPos(e.In) + " under " + strings.Join(e.Guard, "; ")
+				}
+			}
+			r.Check(early == "", R, nm+"/only-the-count-ends-the-run", f.Pos(), "the only successful end of the loop is the count reaching 0", nm+" returns nil at "+early+": the run ends with success before the message was sent the requested number of times")
 		}
 	}
 	// "no --send-interval" is the sentinel -1 (Initialize): an explicit interval of 0 means
@@ -620,6 +630,26 @@ func c20Options(p *Prog, r *Report) {
 	}
 	r.Count("c20.send_interval_tests", nTests)
 	r.Floor(R, "c20.send_interval_tests", 2)
+
+	{
+		R := "C20.13/main-hands-everything-to-Run"
+		r.Describe(R, "macat's main passes the whole argument list to Run, on every path, before anything can end the process: main itself interprets no argument (a word that looks like an option may be the value of --data)")
+		mq := q.Fn(R, "macat/macat", "", "main")
+		if mq.OK() {
+			run := mq.Ev("call", "macat.(*App).Run")
+			okRun := len(run) == 1 && run[0].Unconditional() && len(run[0].Args) == 2 && strings.HasSuffix(run[0].Args[1], ".args[1:]")
+			r.Check(okRun, R, "main/run-unconditional", run.Pos(p), "Run(args[1:]...) on every path", "main does not call Run with all the arguments on every path ("+argsOf(run)+" "+guardsOf(run)+"): arguments are interpreted before Run sees them")
+			bad := ""
+			for _, e := range mq.All() {
+				if e.Kind == "call" && strings.HasSuffix(e.What, "exitFunc") {
+					if len(run) != 1 || !evDominates(run[0], e) {
+						bad = p.InstrPos(e.In)
+					}
+				}
+			}
+			r.Check(bad == "", R, "main/no-exit-before-run", mq.Pos(), "the process can end only after Run", "main can end the process at "+bad+" before Run has seen the arguments")
+		}
+	}
 
 	R = "C20.9/rejected-means-failed"
 	r.Describe(R, "macat's main: whenever Run returns an error the process exits with a non-zero status (after printing it): 'rejected with an error instead of running'")
